@@ -12,6 +12,11 @@ Decided statically:
            the result is returned; max_size() == SIZE_MAX/sizeof(T); deallocate(p, .) -> alignedFree(p).
   R-C14-3  the typed overload memory::alignedMalloc<T>(count, align): the product count*sizeof(T) cannot wrap on a
            path that reaches the allocation, and (size, align) are passed on unchanged.
+  R-C14-5  aligned_allocator::construct(p, t) places a copy of t at p through T's copy constructor; a memcpy is accepted only
+           for trivially copyable T (std::vector relocates elements through it: "elements survive reallocation unchanged").
+  R-C14-6  a member of aligned_allocator that is declared noexcept has no throwing path (allocate's length_error / bad_alloc
+           must be able to reach the caller).
+  R-C14-7  alignedMalloc writes (memset/memcpy-like calls, indexed stores) only inside [block, block + size).
   R-C14-4  isAligned(p, a) is  p % a == 0  (or the equivalent mask test).
   W-C14    static_assert witnesses: AlignedVector<T> is std::vector<T, aligned_allocator<T,64>>, the allocator that
            std::vector really allocates through (allocator_traits::rebind_alloc<T>) is aligned_allocator<T,64>, its
@@ -163,6 +168,9 @@ def check_malloc_cpp(ctx, tu, tag, keytag):
                 bad = bad or not v
                 continue
             al = p.calls(lambda q: bare(q) in FAMILIES)
+            if not check_block_writes(ctx, inst, key, tu, f, p, al, size, align):
+                bad = True
+                continue
             ret = strip_site(p.ret) if p.ret is not None else None
             if p.ret is None:
                 bad = True
@@ -339,6 +347,63 @@ def check_malloc_cpp(ctx, tu, tag, keytag):
             ctx.ok(R, inst, '%s(ptr), the release primitive of %s' % (' / '.join(rel_names), ' / '.join(sorted(k for k in producers if not isinstance(k, tuple))) or '?'),
                    tu.fn_loc(g))
     return n
+
+
+WRITERS = {'memset': (0, 2), 'memcpy': (0, 2), 'memmove': (0, 2), '__builtin_memset': (0, 2), '__builtin_memcpy': (0, 2),
+           'bzero': (0, 1), 'explicit_bzero': (0, 1)}       # name -> (index of destination, index of length)
+
+
+def check_block_writes(ctx, inst, key, tu, f, p, al, size, align):
+    """R-C14-7: alignedMalloc may write only inside the `size` bytes it obtained: every memset/memcpy-like call and every
+    indexed store whose destination is computed from a freshly allocated block must stay within [block, block + size).
+    A write that starts at or behind block + size with a length that can be positive is outside whatever the alignment (the
+    primitive guarantees `size` bytes, not the rest of an alignment unit).  -> False if something was reported."""
+    R7 = 'R-C14-7'
+    blocks = []
+    for k in p.state.d:
+        if isinstance(k, tuple) and k[0] == 'fact' and isinstance(k[1], tuple) and k[1] and k[1][0] == 'call' and \
+                bare(k[1][1]) in FAMILIES and 'out' not in FAMILIES[bare(k[1][1])]:
+            blocks.append(Poly.atom(k[1]))
+    if p.ret is not None:
+        ra = unconv(p.ret).as_atom() if isinstance(unconv(p.ret), Poly) else None
+        if isinstance(ra, tuple) and ra and ra[0] == 'call' and bare(ra[1]) in FAMILIES and Poly.atom(ra) not in blocks:
+            blocks.append(Poly.atom(ra))
+    if not blocks:
+        return True
+    writes = []
+    for e in p.events:
+        if e[0] == 'call' and bare(e[1]) in WRITERS and len(e[3]) > max(WRITERS[bare(e[1])]):
+            di, li = WRITERS[bare(e[1])]
+            writes.append((deconv(unconv(e[3][di])), deconv(e[3][li]), '%s(...)' % bare(e[1]), e[4]))
+    for loc, v in p.stores().items():
+        if loc[0] == 'elem' and len(loc) == 4 and isinstance(loc[1], Poly) and isinstance(loc[2], Poly) and loc[3]:
+            writes.append((deconv(unconv(loc[1])) + loc[2] * loc[3], Poly.const(loc[3]), 'an indexed store', tu.fn_loc(f)))
+    fine = True
+    for dst, length, what, where in writes:
+        blk = next((b for b in blocks if isinstance(dst, Poly) and b.as_atom() in dst.atoms(deep=False)), None)
+        if blk is None:
+            continue
+        off = dst - blk
+        olo, ohi = off.range(p.bounds)
+        llo, lhi = length.range(p.bounds)
+        slack_lo, _ = (size - off - length).range(p.bounds)
+        if olo >= 0 and slack_lo >= 0:
+            continue                                            # provably inside the block
+        fine = False
+        beyond_lo, _ = (off - size).range(p.bounds)
+        if beyond_lo >= 0 and lhi > 0:
+            ctx.violation(R7, inst, '%s at %s writes up to %d byte(s) starting at block + `%s`, i.e. at or behind the end of the `%s` bytes '
+                          'that were requested: those bytes belong to neighbouring allocations or to the allocator (the primitive '
+                          'guarantees %s bytes, not the rest of an alignment unit), so allocating a block overwrites other live blocks'
+                          % (what, where, int(lhi), off.show(), show_val(size), show_val(size)), where,
+                          key=key.replace('R-C14-1', R7) + 'write-outside-requested-block')
+        elif ohi < 0:
+            ctx.violation(R7, inst, '%s at %s writes in front of the block (offset `%s`)' % (what, where, off.show()), where,
+                          key=key.replace('R-C14-1', R7) + 'write-outside-requested-block')
+        else:
+            ctx.undecided(R7, inst, '%s at %s writes `%s` bytes at block + `%s`; cannot show that it stays inside the %s requested bytes'
+                          % (what, where, length.show(), off.show(), show_val(size)), where)
+    return fine
 
 
 UNALIGNED_FREE = {'malloc': 'free', 'calloc': 'free', 'realloc': 'free', 'scalable_malloc': 'scalable_free',
@@ -644,6 +709,64 @@ def check_allocator(ctx, tu, tag):
                         ctx.undecided(R, inst, 'alignedFree receives `%s`' % show_val(fr[0][3][0]), fr[0][4])
             if not bad:
                 ctx.ok(R, inst, 'alignedFree(p)', tu.fn_loc(f))
+        # ---- R-C14-5: construct(p, t) makes a copy of t at p with T's copy constructor (a bitwise copy only for trivially
+        #      copyable T): this is what std::vector relocates elements with
+        tc = r['targs'][0].get('trivially_copyable')
+        for f in names.get('construct', []):
+            if len(f['params']) != 2:
+                continue
+            n += 1
+            inst = '%s::construct [%s]' % (short, tag)
+            paths = analyse(ctx, 'R-C14-5', inst, tu, f, this)
+            if paths is None:
+                continue
+            P, Tv = params(f)
+            bad = False
+            how = set()
+            for p in paths:
+                if p.kind != 'return':
+                    continue            # the element's copy constructor may throw
+                pn = [e for e in p.events if e[0] == 'placement-new']
+                mc = p.calls(lambda q: bare(q) in ('memcpy', 'memmove', '__builtin_memcpy', '__builtin_memmove'))
+                if len(pn) == 1 and not mc and len(pn[0][2]) == 1 and deconv(unconv(pn[0][2][0])) == P and \
+                        len(pn[0][3]) == 1 and strip_site(pn[0][3][0]) in (Tv.as_atom(), ('addr', Tv.as_atom()[1])):
+                    how.add('placement new T(t)')
+                    continue
+                if len(mc) == 1 and not pn and len(mc[0][3]) == 3 and deconv(unconv(mc[0][3][0])) == P and \
+                        strip_site(mc[0][3][1]) in (Tv.as_atom(), ('addr', Tv.as_atom()[1])) and mc[0][3][2].as_int() == sz:
+                    if tc:
+                        how.add('memcpy of a trivially copyable T')
+                        continue
+                    bad = True
+                    ctx.violation('R-C14-5', inst, 'construct(p, t) copies the %d bytes of t with %s, but %s is not trivially copyable (it has a '
+                                  'user-provided copy constructor): elements that std::vector relocates through the allocator are bitwise '
+                                  'images, not copies - they do not survive reallocation unchanged' % (sz, bare(mc[0][1]), r['targs'][0].get('t')),
+                                  mc[0][4], key='R-C14-5|%s|aligned_allocator::construct|bitwise-copy-of-non-trivially-copyable' % file)
+                    continue
+                bad = True
+                ctx.undecided('R-C14-5', inst, 'construct(p, t) does not copy-construct t at p in a recognised way (placement-new: %d, '
+                              'memcpy-like: %d)' % (len(pn), len(mc)), tu.fn_loc(f))
+            if not bad and how:
+                ctx.ok('R-C14-5', inst, ', '.join(sorted(how)), tu.fn_loc(f))
+        # ---- R-C14-6: a member declared noexcept must not let an exception escape (it would be std::terminate instead of the
+        #      length_error / bad_alloc the property promises)
+        for f in members:
+            if 'noexcept' not in (f.get('fty') or ''):
+                continue
+            n += 1
+            mname = f['q'].rsplit('::', 1)[-1]
+            inst = '%s::%s noexcept [%s]' % (short, mname, tag)
+            paths = analyse(ctx, 'R-C14-6', inst, tu, f, this)
+            if paths is None:
+                continue
+            thr = [p for p in paths if p.kind != 'return' and p.throws()]
+            if thr:
+                t0 = thr[0].throws()[-1]
+                ctx.violation('R-C14-6', inst, '%s is declared noexcept but a path throws %s (at %s): the exception cannot leave the function, '
+                              'the process ends in std::terminate() instead of reporting %s to the caller' % (mname, t0[1], t0[2], t0[1]),
+                              tu.fn_loc(f), key='R-C14-6|%s|aligned_allocator::%s|noexcept-function-throws' % (file, mname))
+            else:
+                ctx.ok('R-C14-6', inst, 'no path throws', tu.fn_loc(f), nontrivial=False)
         # ---- allocate (plain and hinted)
         for f in names.get('allocate', []):
             n += 1
@@ -1021,6 +1144,9 @@ def run(ctx):
                             'n*sizeof(T) cannot wrap; alignment A forwarded; null -> bad_alloc; max_size; deallocate -> alignedFree')
     ctx.describe('R-C14-3', 'typed alignedMalloc<T>(count, align): count*sizeof(T) cannot wrap where the block is requested')
     ctx.describe('R-C14-4', 'isAligned(p, a) is p % a == 0')
+    ctx.describe('R-C14-5', 'aligned_allocator::construct(p, t) copy-constructs t at p (bitwise copy only for trivially copyable T)')
+    ctx.describe('R-C14-6', 'no aligned_allocator member that is declared noexcept can throw')
+    ctx.describe('R-C14-7', 'alignedMalloc writes only inside the size bytes of the block it obtained')
     ctx.describe('W-C14', 'AlignedVector<T> allocates through aligned_allocator<T,64> (static_assert witnesses)')
     ctx.assume('scalable_aligned_malloc, _mm_malloc, posix_memalign honour their alignment and size arguments; std::vector uses '
                'its allocator as the standard prescribes')
@@ -1050,7 +1176,9 @@ def run(ctx):
         nw += check_witness(ctx, 'g++', 'c++11', 'g++ c++11')
         nw += check_witness(ctx, 'clang++', 'gnu++17', 'clang++ gnu++17')
     ctx.floor('R-C14-1', n1, 2 * len(mal), 'alignedMalloc + alignedFree per allocator configuration')
-    ctx.floor('R-C14-2', n2, 24 * len(drv), '9 instantiations x (allocate, deallocate, max_size) + 2 hinted overloads = 29 per driver parse')
+    ctx.floor('R-C14-2', n2, 24 * len(drv), '10 instantiations x (allocate, deallocate, max_size) + 2 hinted overloads per driver parse')
+    n5 = sum(1 for o in ctx.obl if o['rule'] == 'R-C14-5')
+    ctx.floor('R-C14-5', n5, 8 * len(drv), 'construct() of the 10 instantiations per driver parse')
     ctx.floor('R-C14-3', n3, 4 * len(drv), '6 typed instantiations per driver parse')
     ctx.floor('R-C14-4', n4, len(drv), 'isAligned')
     ctx.floor('W-C14', nw, 1, 'witness unit')
